@@ -106,10 +106,10 @@ def jobs(pid, tier):
         OKK = r'(coawait|runfn|runfnbig|detached|detachedbig)'
         LOST = r'(coawaitfut|runasync|resumesp)'
         if q:
-            return [vrt('C11', [rf'pool_w[12]_{OKK}_(stop|dtor|selfstop|racestop)', r'pool_w2_dependent_.*'], bound=2, workers=2),
+            return [vrt('C11', [rf'pool_w[12]_{OKK}_(stop|dtor|selfstop|racestop)', r'pool_w2_dependent_.*', r'pool_w[12]_live_.*'], bound=2, workers=2),
                     vrt('C11', [rf'pool_w1_{OKK}-{OKK}_(stop|dtor|selfstop)', r'pool_w2_(coawait-runfn|coawait-detachedbig|runfnbig-detached|coawait-coawait)_(stop|selfstop)', r'pool_w1_(coawait-runfn|detached-detachedbig)_racestop'], bound=2, workers=4),
                     vrt('C11', [rf'pool_w1_{LOST}_(stop|dtor)'], bound=2, workers=2, max_viol=10000000)]
-        return [vrt('C11', [rf'pool_w[123]_{OKK}_(stop|dtor|selfstop|racestop)', r'pool_w[23]_dependent_.*'], bound=3, workers=2),
+        return [vrt('C11', [rf'pool_w[123]_{OKK}_(stop|dtor|selfstop|racestop)', r'pool_w[23]_dependent_.*', r'pool_w[12]_live_.*'], bound=3, workers=2),
                 vrt('C11', [rf'pool_w[12]_{OKK}-{OKK}_(stop|dtor|selfstop|racestop)'], bound=3, workers=8),
                 vrt('C11', [rf'pool_w3_{OKK}-{OKK}_(stop|selfstop)'], bound=1, workers=8),
                 vrt('C11', [rf'pool_w[12]_{OKK}_(stop|dtor|selfstop|racestop)', r'pool_w2_dependent_.*'], bound=2, workers=4, spurious=True),
